@@ -64,7 +64,7 @@ def run(pid, modules, tier, seed, log):
     log("  [E2] parsed %d MIR bodies in %.1fs" % (len(P.fns), time.time() - t0))
     ctx = Ctx(P, tier, seed, log, native_replay=runner_main.native_replay)
     for m in modules:
-        mod = importlib.import_module("specs." + m)
+        mod = importlib.import_module("obl." + m)
         try:
             mod.obligations(ctx)
         except Exception as e:
